@@ -544,6 +544,7 @@ class MarkovCheck(object):
                         inf_rate = 0.0
                 lam = rec_rate + inf_rate
                 if lam > 0 and tmax < float('inf'):
+                    hz += lam * (tmax - t)          # compensator up to the horizon (no event in the censored tail)
                     # censored last interval: randomised probability integral transform of min(Exp, c)
                     c0 = 1 - math.exp(-lam * (tmax - t))
                     us.append(c0 + (1 - c0) * rr.random())
@@ -557,14 +558,14 @@ class MarkovCheck(object):
         ks = stats.ks_uniform(us)
         zt = stats.ztest(dev, var)
         wt = stats.ztest(wdev, wvar)
-        # the integrated hazards of the completed waiting times are i.i.d. Exp(1): their sum is Gamma(n, 1) exactly
+        # counting-process martingale: (number of events) - (integrated total rate, including the censored tail up to tmax) has mean 0 and
+        # predictable variance equal to the integrated rate; unit jumps, so the Bernstein / Freedman bound applies
         if nhz:
-            from scipy.stats import gamma as _gamma
-            ph = float(2 * min(_gamma.cdf(hz, nhz), _gamma.sf(hz, nhz)))
-            setmax(res, 'rescale_min_neglog10_p', -math.log10(max(ph, 1e-300)))
-            if ph < alpha:
-                viol(res, '%s|%s|total_integrated_hazard' % (case['sim'], case['wm']), {'sum_of_rate_times_waiting_time': hz, 'events': nhz, 'ratio': hz / nhz, 'p': ph,
-                                                                                       'graph_kind': case['graph'].get('kind'), 'n': case['graph']['n'], 'tau': tau, 'gamma': gamma})
+            ht = stats.ztest(nhz - hz, hz)
+            setmax(res, 'rescale_min_neglog10_p', -math.log10(max(ht['p'], 1e-300)))
+            if ht['p'] < alpha:
+                viol(res, '%s|%s|total_integrated_hazard' % (case['sim'], case['wm']), {'events': nhz, 'integrated_total_rate': hz, 'z': ht, 'graph_kind': case['graph'].get('kind'),
+                                                                                       'n': case['graph']['n'], 'tau': tau, 'gamma': gamma})
         bump(res, 'rescale_who_events', nwho)
         if case['graph'].get('kind') in ('hubstar', 'bridge'):
             bump(res, 'rescale_uneven_or_hub_cases')
